@@ -106,6 +106,11 @@ func (p *Plenc) CodecForTypeRegistry(registry plenccodec.CodecRegistry, typ refl
 
 	switch typ.Kind() {
 	case reflect.Ptr:
+		if typ.Elem().Kind() == reflect.Map {
+			// A map is a pointer already, and the map codec's calling
+			// convention differs from every other codec's
+			return nil, fmt.Errorf("pointers to maps are not supported")
+		}
 		subc, err := p.CodecForTypeRegistry(registry, typ.Elem(), tag)
 		if err != nil {
 			return nil, err
